@@ -14,6 +14,7 @@ import random
 
 import engine
 import scen
+import steptie
 
 engine.use_repo()
 
@@ -253,7 +254,9 @@ def eval_case(case):
     if not mv or full.get("scenario") is None:
         return {"lines": [], "impl": [], "violations": [], "nontrivial": False, "stats": ["empty"],
                 "replay_case": full}
-    r = scen.run_real(full, timeout_s=90)
+    # greedy / balanced: the plan theorems are about the step model, which is tied to the real step here
+    with steptie.tie_for(full) as tie:
+        r = scen.run_real(full, timeout_s=90)
     if r.get("step_i") is None or r.get("escaped") or r.get("timeout"):
         return {"lines": [], "impl": [], "violations": [], "nontrivial": False, "stats": stats + ["no_run"],
                 "replay_case": full}
@@ -287,5 +290,9 @@ def eval_case(case):
         stats.append(cls)
         stats.append("f=%s" % m["f"])
     nontrivial = any(m["need"] >= 2 for m in mv.values())
-    return {"lines": [], "impl": [], "violations": viol, "nontrivial": nontrivial, "stats": stats,
+    return {"lines": tie.lines, "impl": tie.impl, "violations": viol, "nontrivial": nontrivial, "stats": stats,
             "replay_case": full}
+
+
+def compare(case, impl, model):
+    return steptie.compare(impl, model)[1]
